@@ -51,12 +51,6 @@ namespace c04 {
   C04_TN(double, "f64", 9)
 #undef C04_TN
 
-  template <typename T, typename U>
-  inline std::string pairName()
-  {
-    return std::string(TN<T>::name()) + "*" + TN<U>::name();
-  }
-
   // ---------------------------------------------------------------- shapes
   template <int N> struct Int { };
 
@@ -304,16 +298,6 @@ namespace c04 {
   template <typename A, typename B> inline auto cap(Op<MUL>, A &a, const B &b) -> decltype(a *= b) { return a *= b; }
   template <typename A, typename B> inline auto cap(Op<DIV>, A &a, const B &b) -> decltype(a /= b) { return a /= b; }
   template <typename A, typename B> inline auto cap(Op<MOD>, A &a, const B &b) -> decltype(a %= b) { return a %= b; }
-  inline const char *opName(int op)
-  {
-    static const char *n[] = {"add", "sub", "mul", "div", "mod"};
-    return n[op];
-  }
-  inline const char *opSym(int op)
-  {
-    static const char *n[] = {"+", "-", "*", "/", "%"};
-    return n[op];
-  }
 
   // ---------------------------------------------------------------- "is this scalar expression defined?"
   // a op b evaluated in the common type C = decltype(T()+U()):  no signed overflow, no
